@@ -272,6 +272,37 @@ func c19Timeouts(c *ctx) {
 				}(kind, factor)
 			}
 			rwg.Wait()
+			// more simultaneous requests to a slow upstream than proxy.maxconn: the option limits idle connections, it must
+			// not make requests queue for a connection (each one still gets its 504 in time)
+			{
+				var qwg sync.WaitGroup
+				var worst atomic.Int64
+				var wrong atomic.Int64
+				nq := 3*cf.MaxConn + 3
+				for k := 0; k < nq; k++ {
+					qwg.Add(1)
+					go func(k int) {
+						defer qwg.Done()
+						id := fmt.Sprintf("q%d-%d", ci, k)
+						plainUp.SetScript(id, &rawhttp.Script{Status: 200, Framing: "length", Body: []byte("late"), Delay: 5 * cf.T})
+						raw := fmt.Sprintf("GET /queue HTTP/1.1\r\nHost: dflt.test\r\nX-Verif-Id: %s\r\nConnection: close\r\n\r\n", id)
+						resp := rawhttp.Do(rawhttp.Dial{Addr: proxyAddr, Timeout: 30 * time.Second}, []byte(raw), "GET")
+						plainUp.Take(id)
+						c.R.Eval(1)
+						if resp.Status != 504 {
+							wrong.Add(1)
+						}
+						if int64(resp.Elapsed) > worst.Load() {
+							worst.Store(int64(resp.Elapsed))
+						}
+					}(k)
+				}
+				qwg.Wait()
+				c.R.Nontrivial(fmt.Sprintf("queue-%d", ci))
+				if w := time.Duration(worst.Load()); wrong.Load() > 0 || w > cf.T+time.Second {
+					c.R.Violate("c19:requests-queue-behind-maxconn", fmt.Sprintf("%d simultaneous requests to an upstream that exceeds the %s response-header timeout (proxy.maxconn %d): %d did not get 504, the slowest answer took %s (bound %s)", nq, cf.T, cf.MaxConn, wrong.Load(), w.Round(time.Millisecond), cf.T+time.Second), nil)
+				}
+			}
 			// idle connections: a burst of parallel keep-alive requests, then watch the upstream's open connections
 			time.Sleep(cf.Idle + 500*time.Millisecond) // let earlier connections expire
 			base := plainUp.OpenConns()
